@@ -14,13 +14,17 @@ request, then operation index and connection index at every hop); a completed ru
 that tree, each once, whatever the interleaving; the same holds for the events written to sinks
 (`sink_outputs_are_schedule_independent`).  The correspondence engine compares both multisets between the
 single-threaded executor, the multi-threaded executor with 1..8 workers and the model's own schedule.
-PARTIAL: the executors' idle detection (pool
-manager, parking) is not modelled either: `returns_only_at_quiescence` below is the *definition* of a step in M-NET,
-tied to the code by that same comparison (an early return shows up as a missing invocation or as a wrong report).
+The return condition itself — "no transition is enabled" in M-NET — is what the multi-threaded executor's idle
+detection has to establish.  M-POOL (Model/Pool.lean) is that protocol (worker loop head, pool manager, parking, the
+executor thread inside `run()`) at the granularity of its atomic steps, for any number of workers and every
+interleaving: `run_returns_only_when_the_pool_is_idle` and `idle_detection_never_gets_stuck` at the end of this file.
+PARTIAL: sequentially consistent atomics; the abort signal, time-outs and worker panics are not in M-POOL.
 -/
 import NexoVerif.Lemmas.NetSinks
 import NexoVerif.Lemmas.TaskThm
 import NexoVerif.Model.NetRun
+import NexoVerif.Lemmas.PoolLive
+import NexoVerif.Extracted
 
 namespace NexoVerif.Net
 set_option linter.unusedSimpArgs false
@@ -177,3 +181,48 @@ theorem woken_task_has_a_runnable {s : S} (h : Reach s) (hl : s.live = true) : (
     rw [this.mp hr] at hx; simp at hx
 
 end NexoVerif.TaskM
+
+/-! ## Idle detection of the multi-threaded executor (M-POOL) -/
+namespace NexoVerif.Pool
+
+/-- read from `run_local_worker` (same definition as in Props/C06) -/
+def publishesFirst' : Bool :=
+  Extracted.poolWorkerLoopHead.head? == some "update_msg_count" && Extracted.poolWorkerFlushes == 1
+
+/-- **run_returns_only_when_the_pool_is_idle** — in every execution of the protocol, with any number of workers: when
+`run()` (or `new()`) sees `pool_is_idle()`, the injector is empty, every worker's local queue and fast slot are empty,
+no worker is running a task or searching for one (each is parked or about to unpark the executor thread), and every
+thread-local message count has been published.  Together with `woken_task_has_a_runnable` (a task with something to
+do has a `Runnable` in one of these queues) this is the return condition of a step in M-NET. -/
+theorem run_returns_only_when_the_pool_is_idle {n : Nat} {s s' : St} (hr : Reach n publishesFirst' s)
+    (hs : step .mCheck s = some s') :
+    s.inj = 0 ∧ ∀ w, w < s.n → s.loc w = 0 ∧ s.tl w = 0 ∧ (s.wpc w = .parked ∨ s.wpc w = .lastUnpark) := by
+  have : publishesFirst' = true := by decide
+  rw [this] at hr
+  have h := idle_when_seen_idle hr hs
+  exact ⟨h.inj, h.workers⟩
+
+/-- **idle_detection_never_gets_stuck** — "does not block forever", protocol level: every reachable state has a step;
+and while the executor thread is about to park inside `run()` with no unpark token pending, some *worker* has a step
+to take — one marked active (a parked one has its own token pending), or the one about to unpark the executor
+thread.  So `run()` can only wait while a worker still has something to do: a wake-up of the executor thread or of a
+worker is never lost. -/
+theorem idle_detection_never_gets_stuck {n : Nat} (hn : 0 < n) {s : St} (hr : Reach n publishesFirst' s) :
+    (∃ l, (step l s).isSome = true) ∧
+    (s.mpc = .park → s.mainTok = false → ∃ l w, l.worker = some w ∧ (step l s).isSome = true) := by
+  have : publishesFirst' = true := by decide
+  rw [this] at hr
+  exact ⟨never_stuck hn hr, main_never_waits_for_nobody hn hr⟩
+
+/-- **tasks_left_in_the_injector_are_seen** — a task pushed to the injector while every worker is busy or going idle
+is not left behind: whenever the injector is non-empty inside `run()`, some worker is marked active (and the last one
+to go idle re-checks the injector before it clears the flags: `Inv.lastInj`). -/
+theorem tasks_left_in_the_injector_are_seen {n : Nat} {s : St} (hr : Reach n publishesFirst' s) (hi : 0 < s.inj)
+    (hm : s.mpc ≠ .outside) : ∃ w, w < s.n ∧ s.active w = true := by
+  have : publishesFirst' = true := by decide
+  rw [this] at hr
+  rcases (reach_inv hr).injCovered hi with h | h
+  · exact h
+  · exact absurd h hm
+
+end NexoVerif.Pool
